@@ -31,12 +31,15 @@ class C16(CheckDef):
                   ('%s;%s;%s/%s;%s/2;2' % ((A,) * 5), {'cb': 0, 'reenter': 1, 'locked': 1}, 500, 'random'), ('0;1;2/2;2/4;2', {'cb': 1, 'reenter': 0, 'locked': 1}, 500, 'pct'),
                   ('%s;%s;%s;%s' % ((A,) * 4), {'cb': 1, 'reenter': 0, 'locked': 0}, 300, 'random'), ('4;4;4;2', {'cb': 1, 'reenter': 0, 'locked': 0, 'rev': 1}, 50, 'random'),
                   ('4;0;4;1;2;2', {'cb': 1, 'reenter': 0, 'locked': 0, 'rev': 1}, 50, 'random'), ('4;2/2;3', {'cb': 0, 'reenter': 1, 'locked': 1}, 4000, 'pb2'),
-                  ('0;1/2;2', {'cb': 1, 'reenter': 2, 'locked': 1}, 4000, 'pb2')],
+                  ('0;1/2;2', {'cb': 1, 'reenter': 2, 'locked': 1}, 4000, 'pb2'),
+                  # a thread held inside a callback / destructor: nobody else may have to wait for it
+                  ('4;4;2/0;3;1/3;4;2', {'cb': 1, 'reenter': 0, 'locked': 1}, 500, 'stall'), ('4;2/0;3/3;4', {'cb': 0, 'reenter': 0, 'locked': 1}, 400, 'stall')],
         'thorough': [('%s;%s;%s/%s;%s/2,3' % ((A,) * 5), {'cb': 1, 'reenter': 1, 'locked': 1}, 15000, 'random'), ('%s;%s;%s/%s;%s/2,3' % ((A,) * 5), {'cb': 1, 'reenter': 2, 'locked': 1}, 10000, 'random'),
                      ('%s;%s;%s/%s;%s/2;2' % ((A,) * 5), {'cb': 0, 'reenter': 1, 'locked': 1}, 10000, 'random'), ('0;1;2/2;2/4;2', {'cb': 1, 'reenter': 0, 'locked': 1}, 8000, 'pct'),
                      ('%s;%s;%s;%s' % ((A,) * 4), {'cb': 1, 'reenter': 0, 'locked': 0}, 5000, 'random'), ('4;4;4;2', {'cb': 1, 'reenter': 0, 'locked': 0, 'rev': 1}, 50, 'random'),
                      ('4;0;4;1;2;2', {'cb': 1, 'reenter': 0, 'locked': 0, 'rev': 1}, 50, 'random'), ('4;2/2;3', {'cb': 0, 'reenter': 1, 'locked': 1}, 300000, 'pb2'),
-                     ('0;1/2;2', {'cb': 1, 'reenter': 2, 'locked': 1}, 300000, 'pb2'), ('%s;%s;%s;%s/%s;%s;%s/2;3;2' % ((A,) * 7), {'cb': 1, 'reenter': 1, 'locked': 1}, 15000, 'random')],
+                     ('0;1/2;2', {'cb': 1, 'reenter': 2, 'locked': 1}, 300000, 'pb2'), ('%s;%s;%s;%s/%s;%s;%s/2;3;2' % ((A,) * 7), {'cb': 1, 'reenter': 1, 'locked': 1}, 15000, 'random'),
+                     ('4;4;2/0;3;1/3;4;2', {'cb': 1, 'reenter': 0, 'locked': 1}, 10000, 'stall'), ('4;2/0;3/3;4', {'cb': 0, 'reenter': 0, 'locked': 1}, 8000, 'stall')],
     }
     assumptions = ['bounded object/thread counts; a thread keeps at most one external reference at a time',
                    'time is abstract: try_lock_for may time out whenever the lock is held; the 200 ms / sleep durations are not measured',
